@@ -25,7 +25,7 @@ def snapshot(plan, registry):
     g = plan.graph
     nodes = []
     for n in g.nodes():
-        nodes.append((id(n), type(n).__name__, n.scope, id(getattr(n, "fn", None)), id(getattr(n, "value", None)),
+        nodes.append((id(n), type(n).__name__, getattr(n, "scope", "<no scope attribute>"), id(getattr(n, "fn", None)), id(getattr(n, "value", None)),
                       id(getattr(n, "stack_frame", None)), tuple(sorted(g.nodes[n].items(), key=repr))))
     edges = sorted((id(u), id(v), type(k).__name__, getattr(k, "index", None), getattr(k, "name", None), tuple(sorted(d.items(), key=repr)))
                    for u, v, k, d in g.edges(keys=True, data=True))
@@ -177,7 +177,9 @@ def do_op(w, op):
                     s.v, s.t = None, None  # make something stale so that calls / writes happen
             try:
                 u.run(plan, registry=reg, output=out, progress=None, max_workers=1, max_errors=None)
-            except u.CallError:
+            except Exception:  # noqa  however the run fails, the caller's plan must be untouched
+                # (a failing modified-time query of a stored *Literal* surfaces as AttributeError from
+                # CallError(<Literal>) rather than as a CallError: observed, outside the listed properties)
                 pass
         elif op == "dry":
             u.run(plan, registry=reg, output=out, progress=None, dry_run=True)
@@ -219,7 +221,7 @@ def do_op(w, op):
             for n, rv in rc.mapping.items():
                 rv.value_store = w["St"]("other")
                 rv.is_source = not rv.is_source
-            rc.mapping.pop(next(iter(rc.mapping)), None)
+            rc.mapping.pop(next(iter(rc.mapping), None), None)
             rc.source(extra, w["St"]("new"))
     finally:
         ctl["fail"] = None
@@ -245,7 +247,10 @@ def _seq_task(payload):
     fails = []
     rest = list(itertools.product(OPS, repeat=2)) + [(o,) for o in OPS] + [()]
     ref_w = make_world(shape)
-    ref = ref_w["uberjob"].run(ref_w["plan"], registry=ref_w["reg"], output=ref_w["out"], progress=None, max_workers=1)
+    try:
+        ref = ref_w["uberjob"].run(ref_w["plan"], registry=ref_w["reg"], output=ref_w["out"], progress=None, max_workers=1)
+    except Exception as e:  # noqa
+        return {"n": 1, "fails": [("pristine run failed", f"plan '{shape}': the very first run of a fresh plan raised {type(e).__name__}: {e}", (first,))], "nfails": 1}
     for tail in rest:
         seq = (first,) + tail
         w = make_world(shape)
@@ -273,6 +278,14 @@ def _seq_task(payload):
             except Exception as e:  # noqa
                 fails.append(("meaning changed", f"plan '{shape}', sequence {seq}: a later run raised {e!r}", seq))
     # originals mutated -> copies unchanged
+    try:
+        _copies_follow(shape, fails)
+    except Exception as e:  # noqa
+        fails.append(("copy section raised", f"plan '{shape}': copying / mutating raised {type(e).__name__}: {e}", ()))
+    return {"n": n, "fails": fails[:10], "nfails": len(fails)}
+
+
+def _copies_follow(shape, fails):
     w = make_world(shape)
     pc, rc = w["plan"].copy(), w["reg"].copy()
     sc = snapshot(pc, None)
@@ -283,7 +296,6 @@ def _seq_task(payload):
         rv.value_store = w["St"]("swapped")
     if diff(sc, snapshot(pc, None)) or src_ != [(id(nd), id(rv.value_store), rv.is_source) for nd, rv in rc.mapping.items()]:
         fails.append(("copy follows original", f"plan '{shape}': mutating the original changed an earlier Plan.copy()/Registry.copy()", ()))
-    return {"n": n, "fails": fails[:10], "nfails": len(fails)}
 
 
 # --------------------------------------------------------------------------
@@ -392,10 +404,14 @@ def install_points():
     return e1.install_bc(roots, mode="shared")
 
 
-def conc_cfgs(tier):
+def conc_explorations(tier):
+    """(cfgs, budget) pairs.  'yield' bounds non-default choices at blocking points."""
     shapes = ["chain", "dependent-source"] if tier == "quick" else SHAPES[:4]
-    modes = [("run", "run"), ("run", "dry")] + ([("run", "render"), ("dry", "dry")] if tier != "quick" else [])
-    return [{"shape": s, "modes": list(m)} for s in shapes for m in modes]
+    rr = [{"shape": s, "modes": ["run", "run"]} for s in shapes]
+    rd = [{"shape": s, "modes": list(m)} for s in shapes for m in (("run", "dry"), ("dry", "run")) + ((("run", "render"), ("dry", "dry")) if tier != "quick" else ())]
+    if tier == "quick":
+        return [(rr, {"preempt": 1, "yield": 1}), (rd, {"preempt": 1, "yield": 0})]
+    return [(rr, {"preempt": 1, "yield": 2}), (rr, {"preempt": 2, "yield": 0}), (rd, {"preempt": 1, "yield": 1})]
 
 
 def run(tier):
@@ -408,19 +424,26 @@ def run(tier):
         for key, msg, seq in r["fails"]:
             viols.append(common.Violation(PROP, key, msg, {"engine": "E3", "shape": shape, "seq": list(seq)}))
     install_points()
-    budget = {"preempt": 1}
-    agg = e1run.explore(FACTORY, conc_cfgs(tier), budget)
-    v2, notes = e1run.to_violations(PROP, agg, FACTORY, budget)
-    viols += v2
+    # two independent runs have ~50 blocking points with 2-4 enabled threads each: the choice of who runs
+    # next at a blocking point is bounded too ("yield"), otherwise the non-preemptive schedules alone explode
+    aggs = []
+    notes = []
+    for cfgs, budget in conc_explorations(tier):
+        a = e1run.explore(FACTORY, cfgs, budget)
+        v2, nt = e1run.to_violations(PROP, a, FACTORY, budget)
+        viols += v2
+        notes += nt
+        aggs.append(a)
+    agg = e1run.merge(aggs)
     cov = {
         "evaluations": n + agg["executions"],
         "distinct_nontrivial": n,
         "operation_sequences": n, "operations": OPS, "plans": SHAPES, "render_available": bool(_can_render()),
         "e1_configs": agg["configs"], "e1_executions": agg["executions"], "e1_schedule_tree_nodes": agg["tree_nodes"],
-        "e1_max_points_per_execution": agg["max_points"], "e1_capped": agg["capped"],
+        "e1_max_points_per_execution": agg["max_points"], "e1_capped": agg["capped"], "e1_budgets": [b for _, b in conc_explorations(tier)],
         "rule": ("(a) all operation sequences of length <= 3 over the 14-operation alphabet on 5 plans (scopes, literals with dependencies, dependent source on a shared store, stored literal + unpack, unneeded nodes); "
                  "deep identity snapshot (node objects, scope/fn/value/stack_frame identities, edge multiset with keys and data, plan scope, registry entries and their RegistryValue objects) compared after every step, "
-                 "final run compared with a pristine twin; (b) two threads run/dry-run/render the same plan+registry: every schedule with <= 1 preemption, scheduling points at attribute/subscript accesses of the transformation code"),
+                 "final run compared with a pristine twin; (b) two threads run/dry-run/render the same plan+registry: every schedule with <= 1 preemption and <= 1 (thorough 2) non-default choices at blocking points, scheduling points at attribute/subscript accesses of the transformation code"),
         "samples": [{"plan": "chain", "sequence": ["run-fail-write", "dry", "run"]}, {"concurrent": ["run", "run"], "plan": "chain"}],
         "exhaustive": not agg["capped"],
     }
